@@ -284,8 +284,18 @@ func (v *version) spawn(r *sessionRecord, trivial bool) *version {
 }
 
 func (v *version) fillRecord(r *sessionRecord) {
+	// Tables the record already adds (a commit that creates the manifest
+	// passes its own record, whose tables are part of v) must not be added a
+	// second time: they would be referenced twice and never be deleted.
+	has := make(map[int64]struct{}, len(r.addedTables))
+	for _, t := range r.addedTables {
+		has[t.num] = struct{}{}
+	}
 	for level, tables := range v.levels {
 		for _, t := range tables {
+			if _, ok := has[t.fd.Num]; ok {
+				continue
+			}
 			r.addTableFile(level, t)
 		}
 	}
